@@ -15,23 +15,23 @@ use ark_std::rand::Rng;
 pub fn admission_table() -> Vec<(&'static str, Vec<Family>)> {
     use Family::*;
     vec![
-        ("poly-too-large", vec![Marlin, Sonic, Ipa, Pst13]),
+        ("poly-too-large", vec![Marlin, Sonic, Ipa, Pst13, Kzg10]),
         ("bound-not-enforced", vec![Marlin, Sonic]),
         ("bound-below-degree", vec![Marlin, Sonic, Ipa]),
         ("bound-above-supported", vec![Sonic, Ipa]),
-        ("hiding-zero", vec![Marlin, Sonic, Pst13]),
-        ("hiding-too-large", vec![Marlin, Sonic, Pst13]),
-        ("missing-rng-commit", vec![Marlin, Sonic, Ipa, Pst13]),
+        ("hiding-zero", vec![Marlin, Sonic, Pst13, Kzg10]),
+        ("hiding-too-large", vec![Marlin, Sonic, Pst13, Kzg10]),
+        ("missing-rng-commit", vec![Marlin, Sonic, Ipa, Pst13, Kzg10]),
         ("missing-rng-open", vec![Ipa, Hyrax]),
-        ("wrong-num-vars-setup", vec![Hyrax, Pst13]),
-        ("wrong-num-vars-commit", vec![Hyrax, Brakedown]),
+        ("wrong-num-vars-setup", vec![Hyrax, Pst13, Mlpc]),
+        ("wrong-num-vars-commit", vec![Hyrax, Brakedown, Mlpc]),
         ("wrong-num-vars-open", vec![Hyrax]),
         ("mismatched-labels", vec![Ipa, Hyrax]),
-        ("unknown-polynomial-open", vec![Marlin, Sonic, Ipa, Pst13, Hyrax, ULigero, MLigero, Brakedown]),
-        ("unknown-polynomial-check", vec![Marlin, Sonic, Ipa, Pst13, Hyrax, ULigero, MLigero, Brakedown]),
-        ("missing-evaluation", vec![Marlin, Sonic, Ipa, Pst13, Hyrax, ULigero, MLigero, Brakedown]),
-        ("setup-zero", vec![Marlin, Sonic, Pst13]),
-        ("trim-beyond-params", vec![Marlin, Sonic, Ipa, Pst13]),
+        ("unknown-polynomial-open", vec![Marlin, Sonic, Ipa, Pst13, Hyrax, ULigero, MLigero, Brakedown, Kzg10, Mlpc]),
+        ("unknown-polynomial-check", vec![Marlin, Sonic, Ipa, Pst13, Hyrax, ULigero, MLigero, Brakedown, Kzg10, Mlpc]),
+        ("missing-evaluation", vec![Marlin, Sonic, Ipa, Pst13, Hyrax, ULigero, MLigero, Brakedown, Kzg10, Mlpc]),
+        ("setup-zero", vec![Marlin, Sonic, Pst13, Kzg10]),
+        ("trim-beyond-params", vec![Marlin, Sonic, Ipa, Pst13, Kzg10, Mlpc]),
     ]
 }
 
